@@ -44,7 +44,7 @@ pub fn plan(class: &str, seed: u64, p: &Params) -> Plan {
     let mut rng = StdRng::seed_from_u64(seed ^ 0xc13);
     let n = p.get_u64("n").map(|x| x as usize).unwrap_or_else(|| rng.gen_range(4, 8));
     let timeout_ms = 2_000;
-    let pattern = rng.gen_range(0, 4);
+    let pattern = rng.gen_range(0, 5);
     let mut clients = Vec::new();
     match pattern {
         0 => clients.push((rng.gen_range(0, n), rng.gen_range(5, 60), rng.gen_range(0, 30), rng.gen_range(1, 150))),
@@ -52,6 +52,10 @@ pub fn plan(class: &str, seed: u64, p: &Params) -> Plan {
             for i in 0..n {
                 clients.push((i, rng.gen_range(3, 30), rng.gen_range(0, 40), rng.gen_range(1, 150)));
             }
+        }
+        4 => {
+            // a large burst of transactions that each fill a batch: hundreds of digests queue up at the proposers
+            clients.push((rng.gen_range(0, n), rng.gen_range(300, 700), 0, rng.gen_range(201, 300)));
         }
         2 => {
             // bursts
